@@ -29,6 +29,8 @@ pub struct RxLog {
     pub data: Vec<(u8, Vec<u8>, u64)>,
     /// (address number, ms since start) of keepalives
     pub keepalives: Vec<(u8, u64)>,
+    /// the keepalive frames themselves, parallel to `keepalives`
+    pub keepalive_frames: Vec<Vec<u8>>,
     /// (address number, type, ms since start) of REG frames
     pub regs: Vec<(u8, u16, u64)>,
     /// last source address seen per address number
@@ -147,6 +149,7 @@ impl E2e {
                                 let kind = match rc::packet_type(b) {
                                     Some(rc::T_KEEPALIVE) => {
                                         lg.keepalives.push((a, now));
+                                        lg.keepalive_frames.push(b.to_vec());
                                         1
                                     }
                                     Some(t @ (rc::T_REG1 | rc::T_REG2)) => {
